@@ -51,21 +51,35 @@ func (lsm *LSM) NewIterators(opt *utils.Options) []utils.Iterator {
 
 // Next advances the first wrapped iterator.
 func (iter *Iterator) Next() {
+	if len(iter.iters) == 0 {
+		return
+	}
 	iter.iters[0].Next()
 }
 
 // Valid reports whether the first wrapped iterator is valid.
 func (iter *Iterator) Valid() bool {
+	// NewMergeIterator returns an empty Iterator when there is no source at all
+	// (e.g. an iterator created while the database is being closed).
+	if len(iter.iters) == 0 {
+		return false
+	}
 	return iter.iters[0].Valid()
 }
 
 // Rewind rewinds the first wrapped iterator.
 func (iter *Iterator) Rewind() {
+	if len(iter.iters) == 0 {
+		return
+	}
 	iter.iters[0].Rewind()
 }
 
 // Item returns the current item from the first wrapped iterator.
 func (iter *Iterator) Item() utils.Item {
+	if len(iter.iters) == 0 {
+		return nil
+	}
 	return iter.iters[0].Item()
 }
 
